@@ -75,6 +75,7 @@ func ruleRecursion(c *Ctx, rule string, relevant func(*ssa.Function) bool) {
 func checkListGuard(c *Ctx, rule string, list *ssa.Function) {
 	var inc, cmp, dec bool
 	var callbackGuarded = true
+	sawCallback := false
 	var capVal int64
 	gf := mustFlow(list, facts{}, nil, func(f facts, b *ssa.BasicBlock, s int) facts {
 		for _, a := range edgeAtoms(b, s) {
@@ -86,7 +87,46 @@ func checkListGuard(c *Ctx, rule string, list *ssa.Function) {
 		}
 		return f
 	})
-	for _, f := range withAnon(list) {
+	// deferred decrementers: function literals or methods deferred by List
+	// whose only stores into the counter subtract from it
+	decrementers := map[*ssa.Function]bool{}
+	allInstrs(list, func(i ssa.Instruction) {
+		d, ok := i.(*ssa.Defer)
+		if !ok {
+			return
+		}
+		var target *ssa.Function
+		if mc, ok := d.Call.Value.(*ssa.MakeClosure); ok {
+			target, _ = mc.Fn.(*ssa.Function)
+		} else {
+			target = d.Call.StaticCallee()
+		}
+		if target == nil || target.Blocks == nil {
+			return
+		}
+		subs, other := 0, 0
+		allInstrs(target, func(j ssa.Instruction) {
+			if st, ok := j.(*ssa.Store); ok {
+				if r, ok := fieldOf(st.Addr); ok && r.is("Decoder", "listDepth") {
+					if b, ok := st.Val.(*ssa.BinOp); ok && b.Op == token.SUB {
+						subs++
+					} else {
+						other++
+					}
+				}
+			}
+		})
+		if subs > 0 && other == 0 {
+			decrementers[target] = true
+		}
+	})
+	scan := withAnon(list)
+	for d := range decrementers {
+		if d.Parent() == nil {
+			scan = append(scan, d)
+		}
+	}
+	for _, f := range scan {
 		allInstrs(f, func(i ssa.Instruction) {
 			switch x := i.(type) {
 			case *ssa.Store:
@@ -95,7 +135,7 @@ func checkListGuard(c *Ctx, rule string, list *ssa.Function) {
 						if b.Op == token.ADD && f == list {
 							inc = true
 						}
-						if b.Op == token.SUB && f != list {
+						if b.Op == token.SUB && f != list && decrementers[f] {
 							dec = true
 						}
 					}
@@ -110,9 +150,24 @@ func checkListGuard(c *Ctx, rule string, list *ssa.Function) {
 			case *ssa.Call:
 				if f == list && x.Call.StaticCallee() == nil && !x.Call.IsInvoke() {
 					if _, isParam := x.Call.Value.(*ssa.Parameter); isParam {
+						sawCallback = true
 						fs, _ := gf.at(x)
 						if !fs.has("depth-below-cap") {
 							callbackGuarded = false
+						}
+					}
+				}
+				// the callback handed on to a helper that runs the item loop
+				if f == list && x.Call.StaticCallee() != nil {
+					for _, a := range x.Call.Args {
+						if pa, isParam := a.(*ssa.Parameter); isParam {
+							if _, isFn := pa.Type().Underlying().(*types.Signature); isFn {
+								sawCallback = true
+								fs, _ := gf.at(x)
+								if !fs.has("depth-below-cap") {
+									callbackGuarded = false
+								}
+							}
 						}
 					}
 				}
@@ -132,6 +187,18 @@ func checkListGuard(c *Ctx, rule string, list *ssa.Function) {
 			}
 			if root == list {
 				continue
+			}
+			if decrementers[fn] {
+				// a method deferred by List: every call of it must be that defer
+				onlyDeferred := true
+				for _, site := range callSitesOf(c.P, fn) {
+					if _, isDefer := site.(*ssa.Defer); !isDefer || site.Parent() != list {
+						onlyDeferred = false
+					}
+				}
+				if onlyDeferred {
+					continue
+				}
 			}
 			allInstrs(fn, func(i ssa.Instruction) {
 				if st, ok := i.(*ssa.Store); ok {
@@ -164,18 +231,14 @@ func checkListGuard(c *Ctx, rule string, list *ssa.Function) {
 					return f.with("incremented")
 				}
 				if d, ok := i.(*ssa.Defer); ok {
+					var target *ssa.Function
 					if mc, ok := d.Call.Value.(*ssa.MakeClosure); ok {
-						isDec := false
-						allInstrs(mc.Fn.(*ssa.Function), func(j ssa.Instruction) {
-							if st, ok := j.(*ssa.Store); ok {
-								if r, ok := fieldOf(st.Addr); ok && r.is("Decoder", "listDepth") {
-									isDec = true
-								}
-							}
-						})
-						if isDec {
-							return f.with("decrement-deferred")
-						}
+						target, _ = mc.Fn.(*ssa.Function)
+					} else {
+						target = d.Call.StaticCallee()
+					}
+					if target != nil && decrementers[target] {
+						return f.with("decrement-deferred")
 					}
 				}
 				return f
@@ -200,7 +263,7 @@ func checkListGuard(c *Ctx, rule string, list *ssa.Function) {
 	}
 	c.check(balanced, rule, "(*Decoder).List depth accounting is balanced", list.Pos(), "every return after the increment runs the deferred decrement",
 		"a return path after listDepth++ is not covered by the deferred decrement: the depth counter leaks and, after enough lists on one connection, every list is refused as too deep")
-	c.check(inc && cmp && dec && callbackGuarded && capVal > 0 && capVal <= 100000, rule, "(*Decoder).List depth guard", list.Pos(),
+	c.check(inc && cmp && dec && callbackGuarded && sawCallback && capVal > 0 && capVal <= 100000, rule, "(*Decoder).List depth guard", list.Pos(),
 		fmt.Sprintf("listDepth is incremented, compared with the cap %d before the callback runs, and decremented by a deferred function", capVal),
 		fmt.Sprintf("Decoder.List no longer bounds nesting (increment=%v compare=%v deferred-decrement=%v callback-guarded=%v cap=%d)", inc, cmp, dec, callbackGuarded, capVal))
 }
